@@ -242,6 +242,9 @@ V("C14", "P-lookup-get", IMG, "        value = None\n        if keyword in heade
 # ---------------------------------------------------------------- C15
 V("C15", "i16-dropped", IMG, "        elif self.mode in (ImageMode.RGBA, ImageMode.U8, ImageMode.I16, ImageMode.I32):\n            b.fill(0)", "        elif self.mode in (ImageMode.RGBA, ImageMode.U8, ImageMode.I32):\n            b.fill(0)", "C15.R1")
 V("C15", "floats-cleared-zero", IMG, "        elif self._mode in (ImageMode.F32, ImageMode.F64, ImageMode.F16x3):\n            self.asarray().fill(np.nan)", "        elif self._mode in (ImageMode.F32, ImageMode.F64, ImageMode.F16x3):\n            self.asarray().fill(0)", "C15.R2")
+V2("C15", "mask-value-helper-startswith", [('toasty/image.py', '    def try_as_pil(self):\n', '    def get_mask_value(self):\n        if self.value.startswith("F"):\n            return np.nan\n        return 0\n\n    def try_as_pil(self):\n'), ('toasty/image.py', '        if self._mode in (\n            ImageMode.RGB,\n            ImageMode.RGBA,\n            ImageMode.U8,\n            ImageMode.I16,\n            ImageMode.I32,\n        ):\n            self.asarray().fill(0)\n        elif self._mode in (ImageMode.F32, ImageMode.F64, ImageMode.F16x3):\n            self.asarray().fill(np.nan)\n        else:\n            raise Exception("unhandled mode in clear()")\n', '        self.asarray().fill(self._mode.get_mask_value())\n')], "C15.R2", note="F64 is spelled 'D': the helper on the mode object returns 0 for it (round-3 seed C15-p2)")
+V2("C15", "P-mask-value-helper", [('toasty/image.py', '    def try_as_pil(self):\n', '    def get_mask_value(self):\n        if self in (ImageMode.F32, ImageMode.F64, ImageMode.F16x3):\n            return np.nan\n        return 0\n\n    def try_as_pil(self):\n'), ('toasty/image.py', '        if self._mode in (\n            ImageMode.RGB,\n            ImageMode.RGBA,\n            ImageMode.U8,\n            ImageMode.I16,\n            ImageMode.I32,\n        ):\n            self.asarray().fill(0)\n        elif self._mode in (ImageMode.F32, ImageMode.F64, ImageMode.F16x3):\n            self.asarray().fill(np.nan)\n        else:\n            raise Exception("unhandled mode in clear()")\n', '        self.asarray().fill(self._mode.get_mask_value())\n')], "HOLDS")
+V2("C15", "P-mask-value-helper-by-value", [('toasty/image.py', '    def try_as_pil(self):\n', '    def get_mask_value(self):\n        if self.value in ("F", "D", "F16x3"):\n            return np.nan\n        return 0\n\n    def try_as_pil(self):\n'), ('toasty/image.py', '        if self._mode in (\n            ImageMode.RGB,\n            ImageMode.RGBA,\n            ImageMode.U8,\n            ImageMode.I16,\n            ImageMode.I32,\n        ):\n            self.asarray().fill(0)\n        elif self._mode in (ImageMode.F32, ImageMode.F64, ImageMode.F16x3):\n            self.asarray().fill(np.nan)\n        else:\n            raise Exception("unhandled mode in clear()")\n', '        self.asarray().fill(self._mode.get_mask_value())\n')], "HOLDS")
 V("C15", "alpha-channel-0", IMG, "            return np.all(i[..., 3] == 0)", "            return np.all(i[..., 0] == 0)", "C15.R2")
 V("C15", "update-fills", IMG, "            valid = ~np.isnan(sub_i)\n            np.putmask(sub_b, valid, sub_i)", "            valid = ~np.isnan(sub_i)\n            np.putmask(b, valid, sub_i)", "C15.R3")
 V("C15", "rgba-valid-inverted", IMG, "            valid = sub_i[..., 3] != 0", "            valid = sub_i[..., 3] == 0", "C15.R2")
@@ -311,3 +314,8 @@ V("C20", "P-scalar-first", COLL, "                if isinstance(self._hdu_index,
 # C03 (worker vs serial processing)
 V("C03", "worker-args-swapped", TRANS, "        do_one(buf, pos, pio_in, pio_out)\n\n\n# float-to-RGB", "        do_one(buf, pos, pio_out, pio_in)\n\n\n# float-to-RGB", "C03.R2")
 V("C03", "worker-callback-args", PYR, "        callback(*args)\n", "        callback(args[0], None)\n", "C03.R2")
+
+# attribute caches (round-3 seed C08-p2): a count remembered on the tiling object
+V2("C08", "P-count-memo-fresh-subtiling", [('toasty/study.py', '    def __init__(self, width, height):\n        """Set up the tiling information.\n', '    _n_populated = None\n\n    def __init__(self, width, height):\n        """Set up the tiling information.\n'), ('toasty/study.py', '        img_gx1 = self._img_gx0 + self._width - 1\n        img_gy1 = self._img_gy0 + self._height - 1\n        tile_start_tx = self._img_gx0 // 256\n        tile_start_ty = self._img_gy0 // 256\n        tile_end_tx = img_gx1 // 256\n        tile_end_ty = img_gy1 // 256\n        return (tile_end_ty + 1 - tile_start_ty) * (tile_end_tx + 1 - tile_start_tx)\n', '        if self._n_populated is None:\n            img_gx1 = self._img_gx0 + self._width - 1\n            img_gy1 = self._img_gy0 + self._height - 1\n            tile_start_tx = self._img_gx0 // 256\n            tile_start_ty = self._img_gy0 // 256\n            tile_end_tx = img_gx1 // 256\n            tile_end_ty = img_gy1 // 256\n            self._n_populated = (tile_end_ty + 1 - tile_start_ty) * (tile_end_tx + 1 - tile_start_tx)\n        return self._n_populated\n')], "HOLDS", note="memoised count; sub-tilings are constructed afresh, so their cache starts empty")
+V2("C08", "count-memo-copied-subtiling", [('toasty/study.py', '    def __init__(self, width, height):\n        """Set up the tiling information.\n', '    _n_populated = None\n\n    def __init__(self, width, height):\n        """Set up the tiling information.\n'), ('toasty/study.py', '        img_gx1 = self._img_gx0 + self._width - 1\n        img_gy1 = self._img_gy0 + self._height - 1\n        tile_start_tx = self._img_gx0 // 256\n        tile_start_ty = self._img_gy0 // 256\n        tile_end_tx = img_gx1 // 256\n        tile_end_ty = img_gy1 // 256\n        return (tile_end_ty + 1 - tile_start_ty) * (tile_end_tx + 1 - tile_start_tx)\n', '        if self._n_populated is None:\n            img_gx1 = self._img_gx0 + self._width - 1\n            img_gy1 = self._img_gy0 + self._height - 1\n            tile_start_tx = self._img_gx0 // 256\n            tile_start_ty = self._img_gy0 // 256\n            tile_end_tx = img_gx1 // 256\n            tile_end_ty = img_gy1 // 256\n            self._n_populated = (tile_end_ty + 1 - tile_start_ty) * (tile_end_tx + 1 - tile_start_tx)\n        return self._n_populated\n'), ('toasty/study.py', '        sub_tiling = StudyTiling(self._width, self._height)\n', '        import copy\n        sub_tiling = copy.copy(self)\n')], "C08.R1", note="the sub-tiling is a copy of the parent and inherits its remembered count")
+V2("C08", "P-count-memo-copied-reset", [('toasty/study.py', '    def __init__(self, width, height):\n        """Set up the tiling information.\n', '    _n_populated = None\n\n    def __init__(self, width, height):\n        """Set up the tiling information.\n'), ('toasty/study.py', '        img_gx1 = self._img_gx0 + self._width - 1\n        img_gy1 = self._img_gy0 + self._height - 1\n        tile_start_tx = self._img_gx0 // 256\n        tile_start_ty = self._img_gy0 // 256\n        tile_end_tx = img_gx1 // 256\n        tile_end_ty = img_gy1 // 256\n        return (tile_end_ty + 1 - tile_start_ty) * (tile_end_tx + 1 - tile_start_tx)\n', '        if self._n_populated is None:\n            img_gx1 = self._img_gx0 + self._width - 1\n            img_gy1 = self._img_gy0 + self._height - 1\n            tile_start_tx = self._img_gx0 // 256\n            tile_start_ty = self._img_gy0 // 256\n            tile_end_tx = img_gx1 // 256\n            tile_end_ty = img_gy1 // 256\n            self._n_populated = (tile_end_ty + 1 - tile_start_ty) * (tile_end_tx + 1 - tile_start_tx)\n        return self._n_populated\n'), ('toasty/study.py', '        sub_tiling = StudyTiling(self._width, self._height)\n', '        import copy\n        sub_tiling = copy.copy(self)\n        sub_tiling._n_populated = None\n')], "HOLDS", note="copy, but the remembered count is reset before the rectangle is changed")
